@@ -155,7 +155,7 @@ def worker(prop, tier, seed, widx, nworkers, out, replay=None):
         "ctor_counts": dict(M.ST.ctor_counts), "inv_internal": dict(M.ST.inv_internal), "extra": extra, "wall": time.time() - t0,
     }
     with open(out, "w") as f:
-        json.dump(rep, f)
+        json.dump(rep, f, default=str)      # (sample descriptions may hold exact rationals)
     return rep
 
 
